@@ -1,8 +1,8 @@
 use crate::{
     cfg::RegisterSet,
     parser::{
-        CsrIType, CsrType, HasRegisterSets, IArithType, InstructionProperties, ParserNode,
-        Register, RegisterProperties,
+        CsrIType, CsrType, HasRegisterSets, IArithType, InstructionProperties, LoadType,
+        ParserNode, Register, RegisterProperties, StoreType,
     },
 };
 
@@ -50,7 +50,8 @@ impl HasGenValueInfo for ParserNode {
                 _ => None,
             },
             ParserNode::Store(expr) => {
-                if expr.rs1.get().is_stack_pointer() {
+                // Only a word store leaves the whole register value in the slot
+                if expr.rs1.get().is_stack_pointer() && expr.inst == StoreType::Sw {
                     Some((
                         MemoryLocation::StackOffset(expr.imm.get().value()),
                         AvailableValue::RegisterWithScalar(expr.rs2.get_cloned(), 0),
@@ -79,7 +80,8 @@ impl HasGenValueInfo for ParserNode {
             ParserNode::LoadAddr(expr) => {
                 Some((expr.rd.get(), AvailableValue::Address(expr.name.clone())))
             }
-            ParserNode::Load(expr) => Some((
+            // Only a word load delivers the memory word as it is (lb/lh extend a part of it)
+            ParserNode::Load(expr) if expr.inst == LoadType::Lw => Some((
                 expr.rd.get(),
                 AvailableValue::MemoryAtRegister(
                     expr.rs1.get_cloned(),
